@@ -406,6 +406,20 @@ func scenarios() []scenario {
 			w.MustCreate(world.NewObjectSet("r3", osw.PhaseSpecs(osw.OnePhase("a", "c", "d"), 3), nil, "r1", "r2"))
 			return w
 		}, DriftTargets: testObjects, LooseHistory: true},
+		{Name: "S12 hand-made chain r1{a,b} <- r2{a,b,c}, collisionProtection None on every object", Init: func() *world.World {
+			w := osw.NewWorld()
+			none := func(ps []world.PhaseSpec) []world.PhaseSpec {
+				for pi := range ps {
+					for oi := range ps[pi].Objects {
+						ps[pi].Objects[oi].CollisionProtection = corev1alpha1.CollisionProtectionNone
+					}
+				}
+				return ps
+			}
+			w.MustCreate(world.NewObjectSet("r1", none(osw.PhaseSpecs(osw.OnePhase("a", "b"), 1)), nil))
+			w.MustCreate(world.NewObjectSet("r2", none(osw.PhaseSpecs(osw.OnePhase("a", "b", "c"), 2)), nil, "r1"))
+			return w
+		}, DriftTargets: testObjects, LooseHistory: true},
 		{Name: "S5 ObjectTemplate with one source", Init: func() *world.World {
 			w := osw.NewWorld()
 			src := world.Obj("Gadget", world.NS, "s1", nil)
